@@ -46,6 +46,14 @@ CHECKS.update({
    text="Wkc.tla models a call as a sequence of datagram steps, each checked against an expected count or documented-unchecked, with an environment that forces a counter, makes the device skip a step or removes it from a step on; TLC proves OkImpliesServiced, ErrorFieldsExact and AbsentIsNoticed for all calls of up to 3-4 steps. On the simulated segment every public data-returning entry point (receive, receive_slice, send_receive, send_receive_slice, broadcast read, register_read/write, status, eeprom_read(_raw), sdo_read, sdo_write, group into_op, process-data cycle) is called with the fault placed at every datagram of the call (full product of modes, expected counts 0..3 and forced counts for the single-datagram entry points) and WkcTrace requires: no success while a checked datagram carried a wrong counter, the exact WorkingCounter{expected, received} for single-datagram calls, error fields that name a really offending datagram, no spurious error.",
    note="The table of checked datagrams per entry point is read off the code (WkcTrace.Expected); WrappedWrite::send and ignore_wkc are exempt by the property text."),
 })
+CHECKS.update({
+ "C07": dict(engine="pdi", section="6/C07",
+   text="PdiCycle.tla specifies the chunk loop of the three cycle variants (one action per frame: optional time datagram, fill-the-rest LRW chunk, as many state checks as fit, termination tests). TLC proves Tiling, FitsFrame, OneStatePerSubDeviceInOrder, ExactlyOneClockDatagramFirst, FramesWithinNeed, Terminates for every datagram-area capacity from 14 (34 for the clock variants), image 0..16(24), every input/output split, 0..4 SubDevices. The enumerated configurations and seeded larger ones (all frame sizes of the table up to 1514, images up to 1000 bytes, up to 12 devices, networks without DC for the sync variant) run as real cycles on the simulated segment; PdiCycleTrace makes each group the initial state of PdiCycle and requires the real frames to have exactly the model's datagram shape, and evaluates the property's clauses on the observations: contiguous LRW ranges from the group start, whole image once, frame fits, one FRMW first whose answer is the reported system time, inputs equal the wire's answer, outputs untouched, reported working counter is the sum, one state per SubDevice in group order, frame count within need, termination.",
+   note="Real runs need frames that also carry initialisation traffic (datagram area >= 28); smaller capacities are model-only. Group geometry is derived from the wire because the fields are private."),
+ "C18": dict(engine="pdi", section="6/C18",
+   text="DcSync.tla models configure_dc_sync and the per-cycle arithmetic; TLC checks OnlySelectedTouched, StartIsMultipleInInterval, RangeRejected, OnlyRangeRejected, NoReferenceRejected, SetupTotal, CycleExact exhaustively at scaled widths; Apalache discharges StartInv and CycleInv at the true 64/32-bit widths; the real code runs on the simulated segment with the reference clock preset to boundary and seeded 64-bit values (periods 1..2^32+, delays, shifts, every mix of DC support and sync modes) and DcSyncTrace re-verifies start = k*period, the interval, the activation flags, the untouched devices, offset = time mod period and wait = period - offset + shift with BigNat over quotient witnesses.",
+   note="Witness quotients are computed by the driver and re-verified by the specification; the simulated reference clock is the trusted time source."),
+})
 NOT_BUILT = {}
 def main():
     props = [json.loads(l) for l in open(os.path.join(V, "properties.jsonl"))]
@@ -85,7 +93,7 @@ def main():
                  kind_free_text="RxTriage.tla + RxTriageMC/Trace; harness rxtriage (prepared slot states, before/after snapshots)"),
             dict(name="wirelayout", path="checks/wirelayout.py", serves_properties=["C19"],
                  kind_free_text="WireLayout.tla + WireLayoutMC/Trace; generated crate harness/wiregen"),
-            dict(name="simdev", path="harness/simdev", serves_properties=["C09", "C10", "C11"],
+            dict(name="simdev", path="harness/simdev", serves_properties=["C07", "C09", "C10", "C11", "C18"],
                  kind_free_text="simulated EtherCAT segment + vsim engines (init, alstate, wkc) driving the real MainDevice under a virtual clock; InitSeq/AlState specifications with trace validation"),
             dict(name="pduloop", path="checks/pduloop.py", serves_properties=[p for p in ["C01","C02","C03","C06"] if p in CHECKS],
                  kind_free_text="PduLoop.tla + PduLoopMC/Trace/Monitor; harness vsched + pduloop (token scheduler over OS threads, virtual embassy-time clock)"),
